@@ -32,11 +32,11 @@ def pattern_list(r):
     return pats, binds
 
 
-def make(r, flavor="plain", elem="L", mk="L::new()"):
+def make(r, flavor="plain", elem="L", mk="L::new()", refmut=False):
     """Returns (items, stmt, binds): type declarations, the let+destructure! statement, binding observers."""
     sh, n = r["shape"], r["n"]
     pats, binds = pattern_list(r)
-    ref = "&" if r["isref"] else ""
+    ref = ("&mut " if refmut else "&") if r["isref"] else ""
     items = ""
     ann = ""
     if sh == "braced":
@@ -86,6 +86,8 @@ def make(r, flavor="plain", elem="L", mk="L::new()"):
         if r["isref"]:
             ann = ""
         stmt = "let v: [%s; %d] = %s; konst::destructure!{[%s]%s = %sv}" % (elem, n, val, ", ".join(pats), ann, ref)
+    if refmut and r["isref"]:
+        stmt = stmt.replace("let v", "let mut v", 1)
     return items, stmt, binds
 
 
@@ -115,6 +117,6 @@ def const_case(r, flavor="plain"):
     return body, str(7 * nb)
 
 
-def verdict_program(r, flavor="plain"):
-    items, stmt, _ = make(r, flavor, elem="String", mk="String::new()")
+def verdict_program(r, flavor="plain", refmut=False):
+    items, stmt, _ = make(r, flavor, elem="String", mk="String::new()", refmut=refmut)
     return "#![allow(warnings)]\n%s\npub fn f() { %s; }\n" % (items, stmt)
